@@ -153,6 +153,19 @@ def conditions(tier):
     conds.append(_cond("attrs_a_ab", S.C("A", a="c0"), S.C("A", a="n0", b="n1"), "dataclass"))
     conds.append(_cond("nt_ab_ab", S.C("NT", a="c0", b="c1"), S.C("NT", a="n0", b="n1"), "dataclass"))
     conds.append(_cond("nt_a_ab", S.C("NT", a="c0"), S.C("NT", a="n0", b="n1"), "dataclass"))
+    # 4b. previous content is a call of a *sibling* / sub / other dataclass-like class
+    for ko, so, kn, sn in [
+        ("P_ab", S.C("P", a="c0", b="c1"), "P2_ab", S.C("P2", a="n0", b="n1")),
+        ("P_a", S.C("P", a="c0"), "P2_a", S.C("P2", a="n0")),
+        ("P_ab", S.C("P", a="c0", b="c1"), "PSub_ab", S.C("PSub", a="n0", b="n1")),
+        ("PSub_a", S.C("PSub", a="c0"), "P_ab", S.C("P", a="n0", b="n1")),
+        ("A_ab", S.C("A", a="c0", b="c1"), "A2_ab", S.C("A2", a="n0", b="n1")),
+        ("A_ab", S.C("A", a="c0", b="c1"), "P_ab", S.C("P", a="n0", b="n1")),
+        ("NT_ab", S.C("NT", a="c0", b="c1"), "NT2_ab", S.C("NT2", a="n0", b="n1")),
+        ("lP", S.L(S.C("P", a="c0")), "lP2", S.L(S.C("P2", a="n0"))),
+        ("dP", S.D(("1", S.C("P", a="c0"))), "dP2", S.D(("1", S.C("P2", a="n0")))),
+    ]:
+        conds.append(_cond(f"sib_{ko}_{kn}", so, sn, "sibling-class"))
     # 5. nested containers
     conds.append(_cond("nest_ll", S.L(S.L("c0"), S.L("c1")), S.L(S.L("n0"), S.L("n1", "n2")), "nested"))
     conds.append(_cond("nest_dl", S.D(("1", S.L("c0"))), S.D(("1", S.L("n0", "n1"))), "nested"))
